@@ -224,5 +224,29 @@ UNITS += [
          ),
 ]
 
+# ---- restore's read plan uses the same coalescing: PackInfo::coalesce (commands/restore.rs)
+RS = "crates/core/src/commands/restore.rs"
+UNITS += [
+    Unit(name="RestorePackInfo", file=RS, kind="type", anchor="struct PackInfo {",
+         rewrites=[Rw("struct PackInfo {", "struct RPackInfo {", why="renamed: a second PackInfo (prune) lives in the same verification file"),
+                   Rw("BlobLocations<SmallVec<[(usize, u64); 1]>>", "BlobLocations<SmallVec<(usize, u64)>>", why="smallvec inline-array type parameter -> element type")]),
+    Unit(name="restore_packinfo_coalesce", file=RS, anchor="fn coalesce(self, other: Self) -> Result<Self, (Self, Self)>", within="impl PackInfo {", ret_name="r",
+         wrap_open="impl RPackInfo {", wrap_close="}",
+         functions=["commands::restore::PackInfo::coalesce"],
+         rewrites=[Rw("self.pack_id == other.pack_id", "vpackid_eq(&self.pack_id, &other.pack_id)", why="PartialEq on PackId (opaque id)")],
+         contract="""
+    requires
+        self.locations.covers(), other.locations.covers(),
+        self.locations.offset + self.locations.length + constants::MAX_HOLESIZE <= u32::MAX,
+    ensures
+        // two reads are merged only within one pack, never when the first is served from an existing file, and the merged
+        // range covers every member blob of both
+        /*@restore_coalesce_same_pack_only*/ r matches Ok(c) ==> same_pack(self.pack_id, other.pack_id) && self.from_file is None && c.from_file is None
+            && c.pack_id == self.pack_id && c.locations.covers()
+            && c.locations.blobs.v@ == self.locations.blobs.v@ + other.locations.blobs.v@ && c.locations.offset == self.locations.offset,
+        /*@restore_coalesce_err_returns_both*/ r matches Err(p) ==> p.0 == self && p.1 == other,
+"""),
+]
+
 KANI = []
 META = {"not_covered": []}
